@@ -51,7 +51,8 @@ Record nstate := {
   ns_sigs : list (tok * sigstore);         (* signatures_<round> *)
   ns_board : list out_msg;                 (* messages this node appended to the board *)
   ns_skip : bool;                          (* volatile: SkipCommKeysVerification *)
-  ns_srcs : list (tok * list mts) }.       (* ghost: SrcPayload bytes -> decoded, expanded tasks *)
+  ns_srcs : list (tok * list (tok * list mts)) }.   (* ghost, per round: SrcPayload bytes -> decoded, expanded tasks
+                                                       (the bytes travel inside the round's own payload) *)
 
 (* ---- symbolic threshold crypto: token number ranges assigned by the harness ----
    partial signature by share i of key set K over payload P : 1 000 000 + 100 000 K + 1 000 i + P
